@@ -1,10 +1,190 @@
 (* C17 — Big-number and modular arithmetic return the mathematically correct
-   value.  Property theorems only; proofs are in proofs/NumTheory_proofs.v. *)
-From Coq Require Import List ZArith.
+   value.  Property theorems only; proofs are in proofs/NumTheory_proofs.v, the
+   executable model (tied to /repo by the correspondence check) in
+   model/NumTheory.v.  For add/sub/mul/divmod/exp/gcd/lcm/compare/shifts and
+   rationals the model IS Coq's Z arithmetic (nothing to prove; the
+   correspondence is the check); the theorems below cover the algorithms whose
+   algorithm matters and the capacity/byte conventions.  All statements are for
+   all operands (no size bounds). *)
+From Coq Require Import List ZArith Znumtheory Bool.
 Import ListNotations.
 Require Import V.base.Bytes V.model.NumTheory V.proofs.NumTheory_proofs.
 Local Open Scope Z_scope.
 
+(* ---- CRT: crt.Params.Recombine (Garner) for coprime moduli returns THE residue
+   modulo p*q with the given residues (second residue reduced, capacity as
+   computed by Precompute: at least bitlen(p)+bitlen(q)) *)
+Theorem C17_crt_recombine_correct : forall p q qinv cap mp mq,
+  0 < p -> 0 < q -> Z.gcd p q = 1 ->
+  crt_precompute p q = Some qinv ->
+  0 <= mq < q -> p * q <= pow2 cap ->
+  let r := crt_recombine p q qinv cap mp mq in
+  0 <= r < p * q /\ r mod p = mp mod p /\ r mod q = mq /\
+  (forall r', 0 <= r' < p * q -> r' mod p = mp mod p -> r' mod q = mq -> r' = r).
+Proof. exact crt_recombine_correct. Qed.
+Print Assumptions C17_crt_recombine_correct.
+
+(* ---- modular inverse: non-invertibility is reported exactly when it holds *)
+Theorem C17_modinv_iff_coprime : forall x m, 1 < m ->
+  ((exists r, modinv x m = Some r) <-> Z.gcd x m = 1).
+Proof. exact modinv_iff_coprime. Qed.
+Print Assumptions C17_modinv_iff_coprime.
+
+Theorem C17_modinv_sound : forall x m r, 0 < m ->
+  modinv x m = Some r -> 0 <= r < m /\ (r * x) mod m = 1.
+Proof. exact modinv_sound. Qed.
+Print Assumptions C17_modinv_sound.
+
+(* the logarithmic fuel of the extended Euclid loop always suffices *)
+Theorem C17_egcd_fuel_enough : forall m x, 0 < m ->
+  exists res, egcd (egcd_fuel m) m (x mod m) 0 1 = Some res.
+Proof. exact egcd_fuel_enough. Qed.
+Print Assumptions C17_egcd_fuel_enough.
+
+(* ---- modular square root: whatever is returned squares back (every modulus,
+   prime or composite branch, including Tonelli-Shanks: from the final check) *)
+Theorem C17_sqrt_returned_squares_back : forall x m r,
+  0 < m -> modsqrt x m = SqrtOk r -> (r * r) mod m = x mod m.
+Proof. exact sqrt_returned_squares_back. Qed.
+Print Assumptions C17_sqrt_returned_squares_back.
+
+(* ---- ... and for a prime p = 3 (mod 4) a root is returned for every quadratic
+   residue.  Euler's criterion (the half that follows from Fermat's little
+   theorem) stays a visible hypothesis.  Full statement (also p = 1 (mod 4),
+   Tonelli-Shanks) not proved: partial. *)
+Theorem C17_sqrt_prime_complete :
+  (forall p y, prime p -> 2 < p -> y mod p <> 0 -> ((y * y) ^ ((p - 1) / 2)) mod p = 1) ->
+  forall x p, prime p -> is_prime_mr p = true -> p mod 4 = 3 ->
+  (exists y, (y * y) mod p = x mod p) -> exists r, modsqrt x p = SqrtOk r.
+Proof. exact sqrt_prime_complete. Qed.
+Print Assumptions C17_sqrt_prime_complete.
+
+(* ---- Jacobi symbol: the binary loop of jacobi_purego.go (with the repaired
+   reduction of a negative numerator, F1) returns the Jacobi symbol, for any
+   specification [jac] obeying periodicity, multiplicativity, the value at 0,
+   the second supplementary law and quadratic reciprocity.  Those laws are not
+   available in the installed libraries and stay hypotheses: partial.
+   Full statement: the same with jac := the Jacobi symbol and no hypotheses. *)
+Theorem C17_jacobi_loop_correct_partial : forall jac : Z -> Z -> Z,
+  (forall a b, 0 < b -> Z.odd b = true -> jac a b = jac (a mod b) b) ->
+  (forall a a' b, 0 < b -> Z.odd b = true -> jac (a * a') b = jac a b * jac a' b) ->
+  (forall b, 0 < b -> Z.odd b = true -> jac 0 b = if b =? 1 then 1 else 0) ->
+  (forall b, 0 < b -> Z.odd b = true -> jac 2 b = jacobi_tab b) ->
+  (forall a b, 0 < a -> 0 < b -> Z.odd a = true -> Z.odd b = true ->
+     jac a b = (if (a mod 4 =? 3) && (b mod 4 =? 3) then -1 else 1) * jac b a) ->
+  forall fuel a b ret r,
+  jacobi_loop fuel a b ret = Some r -> 0 <= a -> 0 < b -> Z.odd b = true ->
+  r = ret * jac a b.
+Proof. exact jacobi_loop_correct. Qed.
+Print Assumptions C17_jacobi_loop_correct_partial.
+
+Theorem C17_jacobi_correct_partial : forall jac : Z -> Z -> Z,
+  (forall a b, 0 < b -> Z.odd b = true -> jac a b = jac (a mod b) b) ->
+  (forall a a' b, 0 < b -> Z.odd b = true -> jac (a * a') b = jac a b * jac a' b) ->
+  (forall b, 0 < b -> Z.odd b = true -> jac 0 b = if b =? 1 then 1 else 0) ->
+  (forall b, 0 < b -> Z.odd b = true -> jac 2 b = jacobi_tab b) ->
+  (forall a b, 0 < a -> 0 < b -> Z.odd a = true -> Z.odd b = true ->
+     jac a b = (if (a mod 4 =? 3) && (b mod 4 =? 3) then -1 else 1) * jac b a) ->
+  forall x y j, jacobi x y = Some j -> j = jac x y.
+Proof. exact jacobi_correct. Qed.
+Print Assumptions C17_jacobi_correct_partial.
+
+Theorem C17_jacobi_refuses : forall x y, y <= 0 \/ Z.even y = true -> jacobi x y = None.
+Proof. exact jacobi_refuses. Qed.
+Print Assumptions C17_jacobi_refuses.
+
+(* ---- modular exponentiation (square and multiply) is exponentiation *)
+Theorem C17_modpow_spec : forall b e m, 0 < m -> 0 <= e -> modpow b e m = (b ^ e) mod m.
+Proof. exact modpow_spec. Qed.
+Print Assumptions C17_modpow_spec.
+
+(* ---- numct capacity semantics *)
 Theorem C17_trunc_range : forall cap v, 0 <= trunc cap v < pow2 cap.
 Proof. exact trunc_range. Qed.
 Print Assumptions C17_trunc_range.
+
+Theorem C17_trunc_land : forall cap v, 0 <= cap -> trunc cap v = Z.land v (Z.ones cap).
+Proof. exact trunc_land. Qed.
+Print Assumptions C17_trunc_land.
+
+Theorem C17_trunc_add : forall cap x y, trunc cap (trunc cap x + trunc cap y) = trunc cap (x + y).
+Proof. exact trunc_add. Qed.
+Print Assumptions C17_trunc_add.
+
+Theorem C17_trunc_sub : forall cap x y, trunc cap (trunc cap x - trunc cap y) = trunc cap (x - y).
+Proof. exact trunc_sub. Qed.
+Print Assumptions C17_trunc_sub.
+
+Theorem C17_trunc_mul : forall cap x y, trunc cap (trunc cap x * trunc cap y) = trunc cap (x * y).
+Proof. exact trunc_mul. Qed.
+Print Assumptions C17_trunc_mul.
+
+Theorem C17_add_cap_default_exact : forall x ax y ay,
+  0 <= ax -> 0 <= ay -> 0 <= x < pow2 ax -> 0 <= y < pow2 ay -> add_cap x ax y ay (-1) = x + y.
+Proof. exact add_cap_default_exact. Qed.
+Print Assumptions C17_add_cap_default_exact.
+
+Theorem C17_mul_cap_default_exact : forall x ax y ay,
+  0 <= ax -> 0 <= ay -> 0 <= x < pow2 ax -> 0 <= y < pow2 ay -> mul_cap x ax y ay (-1) = x * y.
+Proof. exact mul_cap_default_exact. Qed.
+Print Assumptions C17_mul_cap_default_exact.
+
+Theorem C17_sub_cap_spec : forall x ax y ay cap,
+  let c := dflt cap (Z.max ax ay) in
+  0 <= sub_cap x ax y ay cap < pow2 c /\ (pow2 c | sub_cap x ax y ay cap - (x - y)).
+Proof. exact sub_cap_spec. Qed.
+Print Assumptions C17_sub_cap_spec.
+
+Theorem C17_lsh_cap_default_exact : forall x ax s,
+  0 <= ax -> 0 <= s -> 0 <= x < pow2 ax -> lsh_cap x ax s (-1) = x * 2 ^ s.
+Proof. exact lsh_cap_default_exact. Qed.
+Print Assumptions C17_lsh_cap_default_exact.
+
+Theorem C17_rsh_cap_default_exact : forall x ax s,
+  0 <= ax -> 0 <= s -> 0 <= x < pow2 ax -> rsh_cap x ax s (-1) = x / 2 ^ s.
+Proof. exact rsh_cap_default_exact. Qed.
+Print Assumptions C17_rsh_cap_default_exact.
+
+Theorem C17_mod_symmetric_spec : forall x m, 0 < m ->
+  (m | mod_symmetric x m - x) /\ - m <= 2 * mod_symmetric x m < m.
+Proof. exact mod_symmetric_spec. Qed.
+Print Assumptions C17_mod_symmetric_spec.
+
+(* ---- byte conversions round trip *)
+Theorem C17_be_value_be_bytes : forall k n, 0 <= k -> 0 <= n < 256 ^ k -> be_valueZ (be_bytesZ k n) = n.
+Proof. exact be_valueZ_be_bytesZ. Qed.
+Print Assumptions C17_be_value_be_bytes.
+
+Theorem C17_nat_bytes_roundtrip : forall x ax, 0 <= ax -> 0 <= x < pow2 ax -> be_valueZ (nat_bytes x ax) = x.
+Proof. exact nat_bytes_roundtrip. Qed.
+Print Assumptions C17_nat_bytes_roundtrip.
+
+Theorem C17_twos_roundtrip : forall x ax, 0 <= ax -> Z.abs x < pow2 ax -> twos_value (twos_bytes x ax) = x.
+Proof. exact twos_roundtrip. Qed.
+Print Assumptions C17_twos_roundtrip.
+
+(* ---- hypotheses are satisfiable / definitions are not vacuous: concrete instances *)
+Example C17_nonvacuous_crt :
+  crt_precompute 7 11 = Some 2 /\ Z.gcd 7 11 = 1 /\ 7 * 11 <= pow2 7 /\
+  crt_recombine 7 11 2 7 3 5 = 38 /\ 38 mod 7 = 3 /\ 38 mod 11 = 5.
+Proof. vm_compute. repeat split; discriminate. Qed.
+
+Example C17_nonvacuous_modinv :
+  modinv 3 7 = Some 5 /\ modinv 6 9 = None /\ modinv (2^200 + 1) (2^521 - 1) <> None.
+Proof. vm_compute. repeat split; discriminate. Qed.
+
+Example C17_nonvacuous_sqrt :
+  is_prime_mr 7 = true /\ 7 mod 4 = 3 /\ modsqrt 2 7 = SqrtOk 4 /\ modsqrt 3 7 = SqrtNone /\
+  modsqrt 2 17 = SqrtOk 6 (* Tonelli-Shanks *) /\ modsqrt 4 15 = SqrtOk 2 /\ modsqrt 6 15 = SqrtNone.
+Proof. vm_compute. repeat split. Qed.
+
+(* F1's inputs: Jacobi(-1, 59) = -1, Jacobi(-8, 3) = 1 *)
+Example C17_nonvacuous_jacobi :
+  jacobi (-1) 59 = Some (-1) /\ jacobi (-8) 3 = Some 1 /\ jacobi 2 15 = Some 1 /\
+  jacobi 1001 9907 = Some (-1) /\ jacobi 5 21 = Some 1 /\ jacobi 3 9 = Some 0 /\ jacobi 3 4 = None.
+Proof. vm_compute. repeat split. Qed.
+
+Example C17_nonvacuous_bytes :
+  nat_bytes 4660 24 = [0; 18; 52] /\ twos_bytes (-2) 7 = [254] /\ twos_value [254] = -2 /\
+  trunc 8 511 = 255 /\ sub_cap 1 8 2 8 (-1) = 255.
+Proof. vm_compute. repeat split. Qed.
